@@ -198,7 +198,7 @@ func listSanitised(p *Program, fieldID string) (bool, string) {
 			}
 			succ := successEdgeOf(cs.Instr)
 			var from []engine.Point
-			for _, b := range f.Blocks {
+			for _, b := range engine.BlocksInl(f) {
 				for j := range b.Succs {
 					if l, has := engine.EdgeLit(b, j); has && succ(l) {
 						from = append(from, engine.Point{B: b.Succs[j]})
@@ -275,7 +275,7 @@ func r13_1(r *Report, p *Program) {
 		if strings.Contains(FK(f), "zz_generated") {
 			continue
 		}
-		for _, b := range f.Blocks {
+		for _, b := range engine.BlocksInl(f) {
 			for _, in := range b.Instrs {
 				var v ssa.Value
 				what := ""
@@ -426,7 +426,7 @@ func r13_2(r *Report, p *Program) {
 		if strings.HasPrefix(FK(f), "metacontroller/pkg/dynamic/apply.") {
 			continue // covered by C05 R05.3 (behind list-map detection)
 		}
-		for _, b := range f.Blocks {
+		for _, b := range engine.BlocksInl(f) {
 			for _, in := range b.Instrs {
 				ta, ok := in.(*ssa.TypeAssert)
 				if !ok || ta.CommaOk {
@@ -524,7 +524,7 @@ func r13_4(r *Report, p *Program) {
 			continue
 		}
 		n := 0
-		for _, b := range f.Blocks {
+		for _, b := range engine.BlocksInl(f) {
 			for _, in := range b.Instrs {
 				if in == e.Hook.Instr.(ssa.Instruction) || !isWriteCall(p, reach, in) {
 					continue
@@ -571,7 +571,7 @@ func r13_4(r *Report, p *Program) {
 	// updateStringMap never dereferences a nil value pointer
 	if f := fn(r, p, rule, "controller/decorator.updateStringMap"); f != nil {
 		ok, why := true, ""
-		for _, b := range f.Blocks {
+		for _, b := range engine.BlocksInl(f) {
 			for _, in := range b.Instrs {
 				u, isU := in.(*ssa.UnOp)
 				if !isU || u.Op != token.MUL || !strings.HasPrefix(u.X.Type().String(), "*string") {
